@@ -8,6 +8,11 @@
      enlarged; interval-stamped trace validated by spec/trace/KVTrace.tla.
 (B2) child processes abort()ing right before / right after Batch::commit(); reopened contents
      validated by the same trace specification.
+     The threaded runs include burst readers (back-to-back read transactions closed in parallel) and a
+     watchdog: a store call that does not return (all threads blocked >= 30 s, re-confirmed for 15 s with
+     a fresh probe call) is a violation kv:mt:hang:..., not a tool timeout.
+(G)  directed scenario for the resize gate (KV!BeginWait / Resize / Admit): the enlargement is deferred
+     because another thread holds an open iterator; the batch that waited for it then writes 200 KiB.
 (P)  probe: is the head-room checked in Store::batch() still there once the write lock is held?
 """
 import json, os, re, shutil
@@ -17,10 +22,11 @@ from vlib import Report, ToolError, log
 PID = "C18"
 ENGINES = ["kv"]
 
-MC_ACTIONS = ["MBegin", "MChild", "MCommitChild", "MDropChild", "MCommit", "MDrop", "MResize", "MCrash",
+MC_ACTIONS = ["MBegin", "MBeginWait", "MAdmit", "MChild", "MCommitChild", "MDropChild", "MCommit", "MDrop", "MResize", "MCrash",
               "MPut", "MDel", "MOutIterOpen", "MOutIterNext", "MOutIterClose",
               "MGet", "MExists", "MIter", "MOutGet", "MOutExists", "MOutIter"]
 RACE_SIG = "kv:resize:stale_check:second_writer:mapfull"
+GATE_SIG = "kv:resize:deferred:waiting_batch:mapfull"
 # key-space size of the recorded runs; must equal NK in the trace configuration used
 TRACE_CFG = {60: "trace/KVTrace", 100: "trace/KVTrace_thorough"}
 T_ACTIONS = ["TBegin", "TPut", "TDel", "TGet", "TExists", "TIter", "TChild", "TCommitChild", "TDropChild", "TDrop",
@@ -55,6 +61,13 @@ def model_check(cfgs):
     never = [a for a in MC_ACTIONS if counts.get(a, 0) == 0]
     if never:
         raise ToolError("model actions never taken (vacuous model check): %s" % never)
+    # anti-vacuity for the resize gate: with the write transaction opened BEFORE the gate (TxnBeforeGate = TRUE)
+    # the enlargement is refused and the model must run out of space
+    r = vlib.tlc("mc/MC_KV", "mc/MC_KV_gateorder", workers=4, coverage=False, timeout=600)
+    if "NoMapFull" not in " ".join(r.invariant_violated):
+        print(r.out[-3000:])
+        raise ToolError("MC_KV_gateorder: the careless gate order does not violate NoMapFull (vacuous resize-gate model)")
+    per["MC_KV_gateorder"] = {"expected_violation": "NoMapFull", "states": r.distinct, "wall_s": round(r.wall, 1)}
     return states, trans, counts, per
 
 
@@ -163,6 +176,15 @@ def run_record(rep, wd, seed, writers, min_pages, tag, nk=60):
         print(p.stdout[-2000:], p.stderr[-2000:])
         raise ToolError("kv record failed")
     info = json.loads(p.stdout.strip().splitlines()[-1])
+    if info.get("hang"):
+        h = info["hang"]
+        rep.violation("kv:mt:hang:%s:writer_in=%s" % (h["kind"], h.get("writer_in") or "none"), dict(case, hang=h),
+                      "store calls never returned under threads (no progress for >= %s s, re-confirmed with a fresh probe call: "
+                      "returned=%s) after %s commits at %s data pages; stuck threads: %s"
+                      % (h["bound_s"], h["probe_exists_returned"], h["commits"], h["data_pages"],
+                         ", ".join("%s in %s" % (t["role"], t["in"]) for t in h["threads"])))
+        info["errors"] = [{"op": "hang", "class": h["kind"]}]
+        return info
     for e in info["errors"][:2]:
         rep.violation("kv:mt:error:%s:%s" % (e["op"], e["class"]), case, "operation failed under threads: %s" % json.dumps(e))
     if info["errors"]:
@@ -228,6 +250,47 @@ def run_race(rep, wd):
     return res
 
 
+def run_gate(rep, wd):
+    """Deferred enlargement: a reader holds an iterator when batch() finds the map > 90 % full; the batch waits at
+    the gate, the reader closes, the map is enlarged, the batch writes 200 KiB (20 % of the OLD map, < 10 % of the new)."""
+    res = None
+    for attempt in (1, 2):
+        d = os.path.join(wd, "gate")
+        p = vlib.harness(["kv", "gate", "--dir", d, "--big", 200 * 1024], timeout=300, check=False)
+        shutil.rmtree(d, ignore_errors=True)
+        if p.returncode < 0:
+            rep.violation("kv:resize:deferred:crash:signal=%d" % -p.returncode, {"kind": "gate"},
+                          "deferred-resize scenario: process killed by signal %d" % -p.returncode)
+            return {"class": "crash"}
+        try:
+            res = json.loads(p.stdout.strip().splitlines()[-1])
+        except Exception:
+            print(p.stdout[-1500:], p.stderr[-1500:])
+            raise ToolError("kv gate gave no result")
+        if res.get("class") != "hang" or attempt == 2:
+            break
+        log("kv gate: a store call did not return within %s s (%s); re-confirming once" % (res.get("bound_s"), res.get("phase")))
+    res["attempts"] = attempt
+    case = {"kind": "gate", "result": res}
+    cls = res.get("class")
+    if cls == "hang":
+        rep.violation("kv:resize:deferred:hang:%s" % res.get("phase"), case,
+                      "deferred-resize scenario: a store call did not return within %s s, twice: %s" % (res.get("bound_s"), json.dumps(res)))
+    elif not res.get("reached"):
+        if cls == "fill_error" and "MAP_FULL" in str(res.get("error")):
+            rep.violation("kv:resize:fill:mapfull", case, "small batches (4 KiB) ran out of space while filling: %s" % json.dumps(res))
+        else:
+            raise ToolError("kv gate: the deferred-resize point was never reached: %s" % json.dumps(res))
+    elif cls == "mapfull":
+        rep.violation(GATE_SIG, case,
+                      "a batch that had to wait at the resize gate for another thread's open iterator ran out of space after the "
+                      "reader closed: map %s -> %s bytes, %s pages used, wrote %s bytes: %s"
+                      % (res.get("map_at_wait"), res.get("map_after_gate"), res.get("pages_at_wait"), res.get("big_bytes"), res.get("error")))
+    elif cls in ("error", "lost"):
+        rep.violation("kv:resize:deferred:waiting_batch:%s" % cls, case, "deferred-resize scenario failed: %s" % json.dumps(res))
+    return res
+
+
 def selftest(rep, wd, behs, trace_path, nk):
     """The binding must be able to fail: a wrong expectation and a corrupted recorded field are rejected."""
     b = json.loads(json.dumps(next(x for x in behs if any(s["a"]["k"] == "Commit" and s["out"] != [[], []] for s in x))))
@@ -275,6 +338,8 @@ def do_replay(rep, wd, obj):
         run_crash(rep, wd, g("--seed"), g("--runs"))
     elif kind == "race":
         run_race(rep, wd)
+    elif kind == "gate":
+        run_gate(rep, wd)
     else:
         raise ToolError("unknown replay kind %r" % kind)
     rep.coverage = {"states": 1, "transitions": 1, "traces_validated_against_impl": 1, "samples": [obj["signature"]]}
@@ -308,6 +373,14 @@ def run(tier, replay):
     if missing:
         raise ToolError("replayed behaviours never contain %s" % missing)
     deep = sum(1 for b in behs if max(s["d"] for s in b) >= 3)
+
+    # (G) deferred enlargement: the waiting batch must find the enlarged map (directed, ~1 s; before the random
+    # threaded runs so that a failure gets its own narrow signature)
+    gate = run_gate(rep, wd)
+    if rep.violations:
+        rep.coverage = {"states": states, "transitions": trans, "traces_validated_against_impl": len(behs),
+                        "samples": [{"deferred_resize_scenario": gate}], "stopped_after": "gate"}
+        return rep.finish()
 
     # (B1) threads + map growth
     recs = []
@@ -353,19 +426,23 @@ def run(tier, replay):
         "behaviours_reaching_depth_3": deep,
         "replay_read_comparisons": checks, "replayed_action_counts": replayed_actions,
         "mt_runs": [{k: r[k] for k in ("events", "batches", "commits", "concurrent_observations", "map_size", "nk",
-                                       "data_file_bytes", "max_batch_growth_pages", "wall_ms", "defdb")} for r in recs],
+                                       "data_file_bytes", "max_batch_growth_pages", "wall_ms", "defdb",
+                                       "burst_reader_threads", "burst_reads", "stalls_recovered")} for r in recs],
         "map_resizes_forced": [{1: 0, 2: 1, 3: 2, 4: 3, 5: 3}.get(r["map_size"] // 1048576, 4) for r in recs],
         "crash_runs": len(crash["runs"]), "crash_trace_events": crash["events"],
         "trace_action_counts": dict(TCOUNTS),
+        "deferred_resize_scenario": gate,
         "headroom_probe": race,
         "selftest": st,
-        "checker_cmd": "tlc mc/MC_KV (%s); h_kv replay; h_kv record + tlc trace/KVTrace; h_kv crash + tlc trace/KVTrace; h_kv race" % ",".join(cfgs),
+        "checker_cmd": "tlc mc/MC_KV (%s); h_kv replay; h_kv record + tlc trace/KVTrace; h_kv crash + tlc trace/KVTrace; h_kv gate; h_kv race" % ",".join(cfgs),
     }
     rep.assumptions = [
         "LMDB itself (lmdb-master-sys / heed 0.22) is trusted for page-level atomicity and fsync; the check observes it only through grin_store's API",
         "per-batch allocation <= 40 KiB of values (<= 24 pages = the 10 % of the initial 1 MiB test-mode map that needs_resize keeps free when a batch is opened, shared by the queued writer threads): KV!BatchMax",
         "process death = abort() of the process; power loss / torn sector writes are not modelled",
         "direction A uses AutomatedTesting (1 MiB chunk) and tiny values: no resize happens there; resizes are exercised in direction B only",
+        "a hang is a store call that has not returned after 30 s while every other thread is blocked too and a fresh probe call "
+        "does not return within 15 more seconds (or a single call stuck for 135 s)",
         "outside observations are validated as 'equal to one committed version inside the call's commit-counter interval' (no wall-clock ordering)",
         "Crash in direction A = close without commit and reopen in the same process; real process kills are direction B(ii)",
     ]
